@@ -25,6 +25,8 @@ CONSTANTS Families,                \* families of cases explored in this configu
           EnvKindsOf(_),           \* hostile additions to the presented envelope (twins of a presented credential)
           TamperMutKinds,          \* mutation kinds applied to submissions over such an envelope
           TamperShapes,            \* envelope shapes in which hostile envelopes are explored
+          IncKindsOf(_),           \* incomplete envelopes a holder may present (empty / decoy-only / no / partial presentation)
+          Explore,                 \* FALSE: stop after WalletMatch (case generation only needs the matched states)
           PatRes(_, _),            \* regular-expression table: [m |-> "no"|"whole"|"group"|"multi", cap |-> STRING]
           DecoyCred,               \* the credential inside the unrelated presentation of the *-arr2 envelopes
           PickMaxOptional, ArrayNoFallThrough, MapEveryDescriptor, MaxBoundsSelection, ResolveChecksEveryEntry,
@@ -246,9 +248,10 @@ ValidSets(df) == {M \in SUBSET (1..Len(df.ds)) : ValidSel(df, M)}
 CompleteExists(df, w) == \E M \in ValidSets(df) : \A i \in M : \E j \in 1..Len(w) : RefSat(df, df.ds[i], w[j])
 
 \* ------------------------------------------------------------ envelope, Build, Validate
-IsArray(sh) == sh \in {"ldp-arr", "jwt-arr", "ldp-arr2", "jwt-arr2"}
+IsArray(sh) == sh \in {"ldp-arr", "jwt-arr", "ldp-arr2", "jwt-arr2", "no-vp"}
 IsArr2(sh) == sh \in {"ldp-arr2", "jwt-arr2"}
-VPs(sh, creds) == IF IsArr2(sh) THEN <<<<DecoyCred>>, creds>> ELSE <<creds>>      \* credential lists of the presentations
+VPs(sh, creds) == IF sh = "no-vp" THEN <<>>      \* the envelope is the empty JSON array: no presentation at all
+                  ELSE IF IsArr2(sh) THEN <<<<DecoyCred>>, creds>> ELSE <<creds>>      \* credential lists of the presentations
 RealVP(sh) == IF IsArr2(sh) THEN 1 ELSE 0
 
 \* presentation_submission.go Build (+ the wrapping path_nested needs for array envelopes)
@@ -466,7 +469,31 @@ DescIds == {def.ds[i].id : i \in 1..Len(def.ds)}
 SubFor(sh, e) == IF e = "plain" THEN BuildSub(def, out, wallet, sh, Dev) ELSE BuildOver(def, Tamper(PresentedCreds, e), sh, Dev)
 EnvOK(sh, e) == e = "plain" \/ (PresentedCreds # <<>> /\ MatchModel(def, Tamper(PresentedCreds, e), Dev).res = "ok")
 MutKindsFor(e) == IF e = "plain" THEN MutKindsOf(fam) ELSE MutKindsOf(fam) \cap TamperMutKinds
-Build == /\ phase = "matched" /\ out.res = "ok"
+\* ----- incomplete envelopes: whatever the wallet did, a holder may present an envelope that does not hold a complete
+\* selection (the verifier side of "incomplete is rejected"): an empty presentation, one with a decoy only, no
+\* presentation at all, or the wallet's presentation minus its last credential (with the mappings that still resolve)
+IncEnv(e) == CASE e = "decoy-vp" -> <<DecoyCred>>
+               [] e = "partial-vp" -> SubSeq(PresentedCreds, 1, Len(PresentedCreds) - 1)
+               [] OTHER -> <<>>
+IncShape(e) == CASE e = "no-vp" -> "no-vp" [] e = "empty-vp-jwt" -> "jwt" [] OTHER -> "ldp"
+IncEnabled(e) == e # "partial-vp" \/ (out.res = "ok" /\ Len(out.vcs) >= 2)
+IncSub(e) ==
+    IF e # "partial-vp" THEN <<>>
+    ELSE LET n == Len(out.vcs) - 1
+             keep == SelectSeq(out.map, LAMBDA m : m.p <= n) IN
+         [k \in 1..Len(keep) |-> [id |-> def.ds[keep[k].d].id,
+                                  p |-> IF n = 1 THEN [k |-> "single", i |-> 0] ELSE [k |-> "idx", i |-> keep[k].p - 1],
+                                  fmt |-> wallet[out.vcs[keep[k].p]].fmt, nested |-> <<>>]]
+
+PresentIncomplete == /\ phase = "matched" /\ Explore
+                     /\ \E e \in IncKindsOf(fam) :
+                           /\ IncEnabled(e)
+                           /\ shape' = IncShape(e) /\ ek' = e /\ env' = IncEnv(e) /\ sub' = IncSub(e)
+                     /\ mut' = "incomplete"
+                     /\ phase' = "mutated"
+                     /\ UNCHANGED <<fam, def, wallet, out, verdict>>
+
+Build == /\ phase = "matched" /\ out.res = "ok" /\ Explore
          /\ \E sh \in ShapesOf(fam) : \E e \in EnvKindsOf(fam) :
                /\ EnvOK(sh, e) /\ (e = "plain" \/ sh \in TamperShapes)
                /\ shape' = sh /\ ek' = e /\ env' = Tamper(PresentedCreds, e) /\ sub' = SubFor(sh, e)
@@ -484,7 +511,7 @@ VerifierValidate == /\ phase \in {"built", "mutated"}
                     /\ phase' = "validated"
                     /\ UNCHANGED <<fam, def, wallet, out, shape, env, ek, sub, mut>>
 
-Next == ChooseDef \/ ChooseWallet \/ WalletMatch \/ Build \/ MutateSubmission \/ VerifierValidate
+Next == ChooseDef \/ ChooseWallet \/ WalletMatch \/ Build \/ PresentIncomplete \/ MutateSubmission \/ VerifierValidate
 Spec == Init /\ [][Next]_vars
 
 \* ------------------------------------------------------------ properties (C12)
